@@ -663,8 +663,7 @@ package rux
 //@       && r.handleFallbackRoute && (method + "/*") in r.stableRoutes ==> route == r.stableRoutes[method + "/*"] && ps == nil && len(alm) == 0
 //@   ensures[C06] then_method_not_allowed: validMethod(method) && !tm(r, method, lookupPath(r, path)) && !(method == "HEAD" && tm(r, "GET", lookupPath(r, path)))
 //@       && !(r.handleFallbackRoute && (method + "/*") in r.stableRoutes) && r.handleMethodNotAllowed ==> route == nil
-//@       && (forall q int :: 0 <= q && q < len(alm) ==> isMethod(alm[q]) && alm[q] != method && tm(r, alm[q], lookupPath(r, path)))
-//@       && (forall x string :: isMethod(x) && x != method && tm(r, x, lookupPath(r, path)) ==> (exists q int :: 0 <= q && q < len(alm) && alm[q] == x))
+//@       && onlyMatching(r, alm, method, lookupPath(r, path)) && coversAll(r, alm, method, lookupPath(r, path))
 //@   ensures[C06] else_not_found: validMethod(method) && !tm(r, method, lookupPath(r, path)) && !(method == "HEAD" && tm(r, "GET", lookupPath(r, path)))
 //@       && !(r.handleFallbackRoute && (method + "/*") in r.stableRoutes) && !r.handleMethodNotAllowed ==> route == nil && len(alm) == 0
 //
@@ -892,7 +891,12 @@ package rux
 //@ spec tm(r *Router, m string, p string) bool = (m + p) in r.stableRoutes || dynHit(r, m, p)
 //@ lemma methods_no_slash: [C06, C07] forall x string :: isMethod(x) ==> !contains(x, "/")
 //
+// coversAll / onlyMatching: the allowed list is exactly the set of other methods whose tables match the path
+// (opaque for QuickMatch, which only forwards them).
+//@ opaque coversAll(r *Router, allowed []string, method string, p string) bool = forall x string :: isMethod(x) && x != method && tm(r, x, p) ==> (exists q int :: 0 <= q && q < len(allowed) && allowed[q] == x)
+//@ opaque onlyMatching(r *Router, allowed []string, method string, p string) bool = forall q int :: 0 <= q && q < len(allowed) ==> isMethod(allowed[q]) && allowed[q] != method && tm(r, allowed[q], p)
 //@ func (*Router).findAllowedMethods [C06, C13, C03, C07]
+//@   reveals coversAll, onlyMatching
 //@   uses methods_no_slash
 //@   requires len(path) >= 1 && tablesWF(r) && cacheNN(r) && methodsTable()
 //@   modifies held(r.cachedRoutes.lock), entries(r.cachedRoutes.hashMap), lmem(r.cachedRoutes.list, _), rank(_), lclock(r.cachedRoutes.list), ln(r.cachedRoutes.list), lback(r.cachedRoutes.list), cacheNode.Value
@@ -900,8 +904,8 @@ package rux
 //@   ensures wf: tablesWF(r) && (prefixof("/", path) ==> cacheNN(r))
 //@   ensures lookups_use_path: lastLookup(r) == path || lastLookup(r) == old(lastLookup(r))
 //@   ensures[C04, C05] chains_fit: old(chainsFit(r)) ==> chainsFit(r)
-//@   ensures[C06] only_other_matching_methods: prefixof("/", path) ==> (forall q int :: 0 <= q && q < len(allowed) ==> isMethod(allowed[q]) && allowed[q] != method && tm(r, allowed[q], path))
-//@   ensures[C06] all_of_them: prefixof("/", path) ==> (forall x string :: isMethod(x) && x != method && tm(r, x, path) ==> (exists q int :: 0 <= q && q < len(allowed) && allowed[q] == x))
+//@   ensures[C06] only_other_matching_methods: prefixof("/", path) ==> onlyMatching(r, allowed, method, path)
+//@   ensures[C06] all_of_them: prefixof("/", path) ==> coversAll(r, allowed, method, path)
 //@   ensures[C06] no_duplicates: forall q1 int, q2 int :: 0 <= q1 && q1 < q2 && q2 < len(allowed) ==> allowed[q1] != allowed[q2]
 //@ loop (*Router).findAllowedMethods #0
 //@   vars rangeindex
